@@ -56,6 +56,7 @@ const (
 type c14eCtr struct {
 	name          string
 	decl          bool  // declares at least one batch resource in requests or limits
+	noStatus      bool  // no container status / id yet: the reconciler and the rule callbacks cannot know its cgroup
 	req, lim, mem int64 // declared batch-cpu request / batch-cpu limit / batch-memory limit; -1 = not declared
 }
 
@@ -256,7 +257,14 @@ func c14eRunCase(t *testing.T, h *vHarness, helper *sysutil.FileTestUtil, execut
 				kc.Resources.Limits = lims
 			}
 			pod.Spec.Containers = append(pod.Spec.Containers, kc)
-			pod.Status.ContainerStatuses = append(pod.Status.ContainerStatuses, corev1.ContainerStatus{Name: c.name, ContainerID: "containerd://" + uid + c.name})
+			if fx == nil && r.Chance(1, 12) {
+				c.noStatus = true
+				if r.Bool() { // a status without an id (container not started) is the same situation
+					pod.Status.ContainerStatuses = append(pod.Status.ContainerStatuses, corev1.ContainerStatus{Name: c.name})
+				}
+			} else {
+				pod.Status.ContainerStatuses = append(pod.Status.ContainerStatuses, corev1.ContainerStatus{Name: c.name, ContainerID: "containerd://" + uid + c.name})
+			}
 			ctrs[i] = c
 		}
 		nDecl := 0
@@ -332,17 +340,23 @@ func c14eRunCase(t *testing.T, h *vHarness, helper *sysutil.FileTestUtil, execut
 				var spec *slov1alpha1.NodeSLOSpec
 				want := true
 				shape := r.Intn(8)
+				opK, opE, opP := 0, 0, 0 // the SHAPE goes to the model, which derives the switch itself (Model/C14Entry sloEnablesCFS)
 				switch shape {
 				case 0: // typed nil
 				case 1:
 					spec = &slov1alpha1.NodeSLOSpec{}
+					opK = 1
 				case 2: // policy unset: the DEFAULT strategy (disabled, cpuset) applies whatever `enable` says
-					spec = &slov1alpha1.NodeSLOSpec{ResourceUsedThresholdWithBE: &slov1alpha1.ResourceThresholdStrategy{Enable: ptr.To(r.Bool())}}
+					en := r.Bool()
+					spec = &slov1alpha1.NodeSLOSpec{ResourceUsedThresholdWithBE: &slov1alpha1.ResourceThresholdStrategy{Enable: ptr.To(en)}}
+					opK, opE = 2, vB(en)
 				default:
 					enable, cfsPolicy := r.Bool(), r.Chance(2, 3)
 					st := &slov1alpha1.ResourceThresholdStrategy{Enable: ptr.To(enable), CPUSuppressPolicy: slov1alpha1.CPUSetPolicy}
+					opK, opE, opP = 2, vB(enable), 1
 					if cfsPolicy {
 						st.CPUSuppressPolicy = slov1alpha1.CPUCfsQuotaPolicy
+						opP = 2
 					}
 					spec = &slov1alpha1.NodeSLOSpec{ResourceUsedThresholdWithBE: st}
 					// the quota of BE pods may only be given up while BE suppress is ENABLED and uses the cfsQuota policy
@@ -354,7 +368,7 @@ func c14eRunCase(t *testing.T, h *vHarness, helper *sysutil.FileTestUtil, execut
 				}
 				var upd bool
 				var err error
-				h.Op("rule slo %d", vB(want))
+				h.Op("rule sloshape %d %d %d", opK, opE, opP)
 				if h.Guard(func() { upd, err = p.parseRuleForNodeSLO(spec) }) {
 					h.Obs("panic")
 				} else if err != nil {
@@ -372,12 +386,12 @@ func c14eRunCase(t *testing.T, h *vHarness, helper *sysutil.FileTestUtil, execut
 					if r.Bool() {
 						node.Annotations = map[string]string{"other": "x"}
 					}
-					h.Op("rule node -100")
+					h.Op("rule ratioann 0 0")
 					lastRatio = -100
 				case 1:
 					bad := []string{"abc", "", "0", "-1.5", "1,5", " 1.5", "0.0", "1.5x", "-0"}[r.Intn(9)]
 					node.Annotations = map[string]string{apiext.AnnotationCPUNormalizationRatio: bad}
-					h.Op("rule nodebad")
+					h.Op("rule ratioann 1 0")
 				default:
 					pct := int64(r.Range(50, 300))
 					if shape == 2 {
@@ -398,7 +412,7 @@ func c14eRunCase(t *testing.T, h *vHarness, helper *sysutil.FileTestUtil, execut
 						s = strings.TrimRight(strings.TrimRight(fmt.Sprintf("%d.%02d", pct/100, pct%100), "0"), ".")
 					}
 					node.Annotations = map[string]string{apiext.AnnotationCPUNormalizationRatio: s}
-					h.Op("rule node %d", pct)
+					h.Op("rule ratioann 2 %d", pct)
 					lastRatio = pct
 				}
 				h.Tag(fmt.Sprintf("ratio:shape%d", shape))
@@ -476,13 +490,18 @@ func c14eRunCase(t *testing.T, h *vHarness, helper *sysutil.FileTestUtil, execut
 
 		flat := make([]int64, 0, 4*nc)
 		for _, c := range ctrs {
-			flat = append(flat, int64(vB(c.decl)), c.req, c.lim, c.mem)
+			flat = append(flat, int64(vB(c.decl)+2*vB(c.noStatus)), c.req, c.lim, c.mem)
 		}
 		h.Op("entry %d %d %d %d %d %d %d %s", vB(isBE), ann, vB(v2), init[0], init[1], init[2], nc, vInts(flat))
 		h.Obs("eff %d %d", vB(cfs), pct)
 		h.Tag(fmt.Sprintf("ann:%d", ann))
 		h.Tag(fmt.Sprintf("v2:%v", v2))
 		h.Tag(fmt.Sprintf("decl:%d/%d", nDecl, nc))
+		for _, c := range ctrs {
+			if c.noStatus {
+				h.Tag("ctr-without-status")
+			}
+		}
 		if isBE && nDecl > 0 {
 			h.Nontrivial()
 		}
@@ -677,14 +696,19 @@ func c14eRunCase(t *testing.T, h *vHarness, helper *sysutil.FileTestUtil, execut
 			{
 				ctx := &protocol.ContainerContext{}
 				var adjust *api.ContainerAdjustment
+				var update *api.ContainerUpdate
 				if h.Guard(func() {
 					ctx.FromNri(sandbox("n"), &api.Container{Id: uid + c.name, Name: c.name, PodSandboxId: "sb" + uid})
 					_ = p.SetContainerResources(ctx)
-					adjust, _, _ = ctx.NriDone(executor)
+					adjust, update, _ = ctx.NriDone(executor)
 				}) {
 					h.Obs("ctr %d nri panic", i)
 				} else {
 					res := adjust.GetLinux().GetResources()
+					// UpdateContainer answers with a ContainerUpdate: it must carry the same resources as the CreateContainer adjustment
+					if a, u := res.String(), update.GetLinux().GetResources().String(); a != u {
+						h.Fail("C14:nri-update-differs", "container %s: adjustment resources {%s} but update resources {%s}", c.name, a, u)
+					}
 					if res == nil {
 						h.Obs("ctr %d nri none", i)
 						judgeResp("nri", false, [3]int64{}, "none")
@@ -746,9 +770,9 @@ func c14eRunCase(t *testing.T, h *vHarness, helper *sysutil.FileTestUtil, execut
 					// (being the webhook's dump or one of the empty shapes) knows nothing about this container either
 					for kind := 0; kind < 3; kind++ {
 						switch {
-						case !isBE || !c.decl:
+						case !isBE || !c.decl || c.noStatus:
 							if got[kind] != initFiles[kind] {
-								h.Fail("C14:entry-rec-undeclared-written", "container %s (BE=%v, declares=%v): cgroup file %d changed %s -> %s", c.name, isBE, c.decl, kind, initFiles[kind], got[kind])
+								h.Fail("C14:entry-rec-undeclared-written", "container %s (BE=%v, declares=%v, no status=%v): cgroup file %d changed %s -> %s", c.name, isBE, c.decl, c.noStatus, kind, initFiles[kind], got[kind])
 							}
 						case got[kind] != wantF[kind]:
 							h.Fail("C14:entry-rec-container-value", "container %s: cgroup file %d is %s, declared amounts give %s", c.name, kind, got[kind], wantF[kind])
@@ -777,7 +801,7 @@ func c14eRunCase(t *testing.T, h *vHarness, helper *sysutil.FileTestUtil, execut
 						st.CPUSuppressPolicy = slov1alpha1.CPUCfsQuotaPolicy
 					}
 					want := !(enable && cfsPolicy)
-					h.Op("rule slo %d", vB(want))
+					h.Op("rule sloshape 2 %d %d", vB(enable), 1+vB(cfsPolicy))
 					upd, err = p.parseRuleForNodeSLO(&slov1alpha1.NodeSLOSpec{ResourceUsedThresholdWithBE: st})
 					lastCFS, cbMeta = want, false
 				} else {
@@ -841,7 +865,7 @@ func c14eRunCase(t *testing.T, h *vHarness, helper *sysutil.FileTestUtil, execut
 					wantQ := c14eFmt(v2, 1, ctrWant(c)[1])
 					for kind := 0; kind < 3; kind++ {
 						switch {
-						case kind != 1 || !isBE || !c.decl:
+						case kind != 1 || !isBE || !c.decl || c.noStatus:
 							if got[kind] != initFilesCb[kind] {
 								h.Fail("C14:cb-untouched-file-written", "callback %s: container %s (BE=%v, declares=%v) cgroup file %d changed %s -> %s", name, c.name, isBE, c.decl, kind, initFilesCb[kind], got[kind])
 							}
